@@ -12,9 +12,10 @@
    bytes (indices, [bget]/[bset]), the 1024-byte window of the GNU 1.0 sparse map (the list holds
    exactly the bytes that have been loaded), the xattr object of pax_xattr_libarchive.
 
-   Repairs followed by this model (props/C07/fixes):
-     F22  a GNU.sparse.map record resets sparse_last (unpatched: use after free)
-     F24  mtime with the sign bit set is converted without negating INT64_MIN (unpatched: UB)
+   Repairs (all in /repo now) that this model follows:
+     F22  a GNU.sparse.map record resets sparse_last (before: use after free)
+     F24  mtime with the sign bit set is converted without negating INT64_MIN (before: UB)
+     379955f  a partial header record is an error; only a read of 0 bytes is the end of the archive
    Not modelled: devno (major/minor packing), uname/gname (unused by the C code). *)
 From Coq Require Import List NArith ZArith Bool.
 From Coq Require Ascii String.
